@@ -252,6 +252,9 @@ GEN_OPTS = {
     "C20": {"label": "C20", "p_errors": 0.15, "p_poly": 0.05,
             "shapes": ["dag", "dag", "chain", "diamond", "fanout", "self", "cycle2", "cycle2",
                        "cycle2_outside", "cycle3", "twocycles"]},
+    # ("overlap" - two cycles sharing an edge - is generated by genproj but not explored by default:
+    #  on the unchanged tree its outcome depends on the project path and the schedule, and the
+    #  compiled program makes CPython crash at exit; see known_findings.json / DESIGN 9.4)
 }
 
 
@@ -496,6 +499,22 @@ def shape_predicates(proj):
 
     for s in g:
         dfs(s, s, [s])
+    # two different simple cycles sharing an edge
+    cycles = []
+
+    def walk(start, node, path):
+        for nx in g.get(node, []):
+            if nx == start:
+                cycles.append(tuple(path))
+            elif nx not in path and nx > start and len(path) < 8:
+                walk(start, nx, path + [nx])
+
+    for s0 in sorted(g):
+        walk(s0, s0, [s0])
+    def edges(c):
+        return {(c[i], c[(i + 1) % len(c)]) for i in range(len(c))}
+    overlapping = any(edges(c1) & edges(c2) for i, c1 in enumerate(cycles) for c2 in cycles[i + 1:]
+                      if set(c1) != set(c2) or len(c1) != len(c2))
     outside = False
     for m in members:
         for o in g:
@@ -519,7 +538,7 @@ def shape_predicates(proj):
                                                           or single_clause_fn_in_cycle),
         "poly": bool(re.search(r"^\.(id|tw)\w+ ", "\n".join(proj["files"].values()), re.M)),
         "infer_fail": bool(re.search(r"^\.us\w+ x = ", "\n".join(proj["files"].values()), re.M)),
-        "modules": len(proj["files"]),
+        "modules": len(proj["files"]), "overlapping_cycles": overlapping,
     }
 
 
@@ -571,7 +590,7 @@ def run_check(prop, tier, seed, replay=None):
             # the budget is a number of re-builds, scaled down for projects whose builds are long
             # (hook steps are deterministic, wall-clock is not)
             avg_steps = max(1, sum(x["steps"] for x in r["stats"]) // max(1, len(r["stats"])))
-            budget = max(3, min(150 if tier == "quick" else 400, 6_000_000 // avg_steps))
+            budget = max(3, min(60 if tier == "quick" else 250, 3_000_000 // avg_steps))
             proj, seeds2, bad, sig = minimise(prop, r["proj"], seeds, r["bad"], w, d, budget_s=budget)
             return {"idx": r["idx"], "proj": proj, "seeds": seeds2, "bad": bad, "sig": sig,
                     "orig_shape": r["proj"]["shape"]}
